@@ -25,6 +25,7 @@ while it runs (`Rpft/SugarFlat.lean`: `parseBlock`, `runFlat`, following `_parse
 -/
 import Rpft.Props.C03
 import Rpft.Lemmas.SugarFlatDesugar
+import Rpft.Lemmas.SugarFlatTerm
 set_option linter.unusedSimpArgs false
 set_option linter.unusedVariables false
 namespace Rpft.Props.C03
@@ -51,16 +52,6 @@ theorem flatten_parse (kind : Raw → RowKind) (rows : List Raw) (its : List (FI
 theorem flatten_parseAll (kind : Raw → RowKind) (rows : List Raw) :
     flattenP (parseAll kind rows) = rows ∧ WkP kind .root (parseAll kind rows) :=
   ⟨flattenP_parseAll kind rows, WkP_parseAll kind rows⟩
-
-theorem fault?_isSome (kind : Raw → RowKind) :
-    ∀ (t : PTree Raw) (bt : BlockType), WkP kind bt t → bt ≠ .root → t.fault?.isSome = true := by
-  intro t
-  induction t with
-  | done its => intro bt h hbt; exact absurd h.1 hbt
-  | fault its f rest => intro bt h hbt; rfl
-  | open_ its isFor b inner ih =>
-    intro bt h hbt
-    exact ih _ h.2.2 (by cases isFor <;> simp)
 
 /-- the structural parser accepts exactly the sheets the block machine of C15 (`Cli.checkBlocks`)
 accepts, and reports the same fault on the others. -/
@@ -149,79 +140,6 @@ theorem flat_ill_nested (I : FIface Raw Inst Ctx Val Hdr Err S) (L : FlatLaws I)
   · left; simp [h]
   · right; exact ⟨e, by simp [h]⟩
 
-theorem evP_stop (I : FIface Raw Inst Ctx Val Hdr Err S) :
-    ∀ (t : PTree Raw) (c : Ctx) (x : Stop Err), evP I c t = .error x →
-      (∃ e, x = .err e) ∨ (∃ f, x = .fault f) := by
-  have hskip : ∀ (t : PTree Raw), (∃ e, skipP I t = .err e) ∨ (∃ f, skipP I t = .fault f) := by
-    intro t
-    induction t with
-    | done its => exact Or.inr ⟨_, rfl⟩
-    | fault its f rest =>
-      simp only [skipP]
-      cases firstFail I (flattenFL its ++ List.take 1 rest) with
-      | some x => exact Or.inl ⟨_, rfl⟩
-      | none => exact Or.inr ⟨_, rfl⟩
-    | open_ its isFor b inner ih =>
-      simp only [skipP]
-      cases firstFail I (flattenFL its ++ [b]) with
-      | some x => exact Or.inl ⟨_, rfl⟩
-      | none => exact ih
-  intro t
-  induction t with
-  | done its =>
-    intro c x h
-    simp only [evP] at h
-    cases hE : evFs I c its with
-    | error e => simp [hE] at h; exact Or.inl ⟨e, h.symm⟩
-    | ok es => simp [hE] at h
-  | fault its f rest =>
-    intro c x h
-    simp only [evP] at h
-    cases hE : evFs I c its with
-    | error e => simp [hE] at h; exact Or.inl ⟨e, h.symm⟩
-    | ok es =>
-      simp only [hE] at h
-      cases rest with
-      | nil => simp at h; exact Or.inr ⟨f, h.symm⟩
-      | cons r rs =>
-        simp only [] at h
-        cases hi : I.inst c r with
-        | error e => simp [hi] at h; exact Or.inl ⟨e, h.symm⟩
-        | ok i => simp [hi] at h; exact Or.inr ⟨f, h.symm⟩
-  | open_ its isFor b inner ih =>
-    intro c x h
-    simp only [evP] at h
-    cases hE : evFs I c its with
-    | error e => simp [hE] at h; exact Or.inl ⟨e, h.symm⟩
-    | ok es =>
-      simp only [hE] at h
-      cases hi : I.inst c b with
-      | error e => simp [hi] at h; exact Or.inl ⟨e, h.symm⟩
-      | ok i =>
-        simp only [hi] at h
-        have hsk : ∀ y, (Except.error (skipP I inner) : Res Err (List (Ev Inst Hdr))) = .error y →
-            (∃ e, y = .err e) ∨ (∃ f, y = .fault f) := by
-          intro y hy
-          injection hy with hy
-          subst hy
-          exact hskip inner
-        cases hinc : I.includeIf i with
-        | false => simp [hinc] at h; exact hsk x (by rw [h])
-        | true =>
-          simp only [hinc, if_true] at h
-          cases isFor with
-          | false => simp at h; exact ih c x h
-          | true =>
-            simp only [if_true] at h
-            cases hv : I.loopVars i with
-            | none => simp [hv] at h; exact Or.inl ⟨_, h.symm⟩
-            | some vi =>
-              obtain ⟨v, idx⟩ := vi
-              simp only [hv] at h
-              cases hl : I.iterList i with
-              | nil => simp [hl] at h; exact hsk x (by rw [h])
-              | cons y ys => simp only [hl] at h; exact ih _ x h
-
 /-- **Termination, and no internal failure**: whatever the lists of the loops are, the run
 neither exhausts the model's fuel (`rows + 1`: one unit per turn of the `while` loop and per
 nesting level; iterations re-use the fuel) nor misses a bookmark nor pops a missing context key. -/
@@ -246,6 +164,31 @@ theorem flat_fuel_irrelevant (I : FIface Raw Inst Ctx Val Hdr Err S) (L : FlatLa
     (by rw [flattenP_parseAll]; omega) hm
   rw [flattenP_parseAll] at h1 h2
   rw [h1, h2]
+
+/-- **Termination for ANY interface** — no law is used: row kinds may be templated, lists and
+context operations arbitrary.  Every call of `_parse_block` returns with no more rows left than it
+started with and with the bookmarks of the enclosing loops untouched (`parseBlock_good`), every
+iteration restarts at the bookmark of its own loop, so `rows + 1` units of fuel (one per turn of the
+`while` loop and per nesting level) always suffice. -/
+theorem flat_terminates_any (I : FIface Raw Inst Ctx Val Hdr Err S) (ctx : Ctx) (rows : List Raw) :
+    runFlat I ctx rows ≠ .error .fuel := by
+  unfold runFlat
+  have h := parseBlock_nofuel I (rows.length + 1) 0 .root false ⟨rows, [], ctx, []⟩ (by simp)
+  cases hp : parseBlock I (rows.length + 1) 0 .root false ⟨rows, [], ctx, []⟩ with
+  | ok s => simp
+  | error e =>
+    simp only []
+    intro he
+    injection he with he
+    subst he
+    exact h hp
+
+/-- a call of `_parse_block` never moves the iterator backwards (whatever happened in between:
+the jumps back to bookmarks are internal to the loops) and leaves outer bookmarks alone -/
+theorem flat_call_shrinks (I : FIface Raw Inst Ctx Val Hdr Err S) (F d : Nat) (bt : BlockType) (om : Bool)
+    (s s' : St Raw Inst Ctx Hdr) (h : parseBlock I F d bt om s = .ok s') :
+    s'.pos.length ≤ s.pos.length ∧ ∀ k, k < d → getMark k s'.marks = getMark k s.marks :=
+  parseBlock_good I F d bt om s s' h
 
 /-! ### desugaring, on flat sheets -/
 
